@@ -1194,6 +1194,7 @@ contract(
     props=["C11"],
     params={"self": Ref("PostProcessor"), "useProductionNames": Opt(BOOL)},
     modifies=sorted(set(["PostProcessor.otf"] + _RENAME_FRAME + _POST_FIELDS)),
+    merge_branches=False,  # one VC per path: no ite over heaps between "renamed" / "names dropped" / "nothing to do"
     requires=[],
     ensures={
         # --- nothing to rename: the font object and its glyph order are left alone
